@@ -189,6 +189,9 @@ impl CaseSink {
         self.cur_lines.clear();
     }
     pub fn finish(mut self, extra: &str) {
+        self.finish_mut(extra)
+    }
+    pub fn finish_mut(&mut self, extra: &str) {
         self.flush();
         let mut s = String::new();
         write!(
